@@ -1,4 +1,5 @@
 import WacModel.EncProto
+import WacModel.Spec.EncodeWF
 /-
   Driver for C02.  Case kind:
     enc <gen> <define 0|1> <graph> <real toposort> <result>
@@ -121,11 +122,24 @@ def judgeEnc (define : Bool) (g : GraphVal) (topo : Except Nat (List Nat)) (r : 
       "MODEL\ttoposort model=" ++ showTopo mt ++ " impl=" ++
         (match topo with | .ok l => s!"ok{l}" | .error n => s!"cycle({n})")
     else
+      if !wfCheck g then "MODEL\tthe dumped graph is not well-formed (WF): satisfied sets / kinds / ids"
+      else
       match encode g o, r with
       | .ok sk, .ok w =>
         let mw := noImports (wiring sk)
         let rw := noImports w
-        if mw != rw then "MODEL\twiring " ++ diffWiring rw mw "impl" "model" else "ok"
+        if mw != rw then "MODEL\twiring " ++ diffWiring rw mw "impl" "model"
+        else
+          -- third field (ignored by the runner): are the hypotheses of `wiring_encode_partial` met?
+          let hyp : String := match mt with
+            | .ok ord => match aggOf g (ord.filter (isImportNode g)) with
+              | some agg =>
+                if aggOkCheck g agg then "1"
+                else if !(agg.imports.all fun e => decide (e.2.kind = .instance → e.2.iface = none ∨ e.2.iface = some e.1))
+                then "0:iface-named" else "0:other"
+              | none => "0:no-agg"
+            | _ => "0:no-order"
+          "ok\thyp=" ++ hyp
       | .error (.cycle n), .cycle n' => if n == n' then "ok" else s!"MODEL\tcycle node model={n} impl={n'}"
       | .error (.implicitConflict nm i m), .implicit nm' i' m' =>
         if nm == nm' && i == i' && m == m' then "ok"
